@@ -481,35 +481,7 @@ func runC13(r *Report, tier string) {
 		r.ob("R13.3", shortFn(val)+":records", val, nil, "the normalised label is recorded in the seen-set").check(filled, "seen[normalised label] = ...", "no insertion of the normalised label into a local set")
 	}
 	// R13.2 encoders + decoders
-	for _, tn := range []struct {
-		name string
-		flag string
-	}{{"ProtectedHeader", "true"}, {"UnprotectedHeader", "false"}} {
-		enc := P.methodOf(P.mustNamed(tn.name), "MarshalCBOR")
-		if enc == nil {
-			undecidedf("anchor not found: %s.MarshalCBOR", tn.name)
-		}
-		np := 0
-		for _, p := range P.allPaths(enc) {
-			if !p.feasible() {
-				continue
-			}
-			fs := factSet{}
-			for _, c := range p.conds {
-				fs.add(c)
-			}
-			res := p.results()
-			if k, _ := P.classifyErr(res[1], fs); k == exitFailure {
-				continue
-			}
-			np++
-			o := r.ob("R13.2", shortFn(enc)+":path:"+pathID(p), enc, p.ret, "bucket encoder: empty header, or ok(validator(h, "+tn.flag+"))")
-			empty := len(fs.matchAll([]factPat{fp("binop<==>(0, len($0))")}, nil)) > 0
-			okv := len(fs.matchAll([]factPat{fp(okp("call<" + shortFn(val) + ">($0, " + tn.flag + ")"))}, nil)) > 0
-			o.check(empty || okv, fmt.Sprintf("empty:%v validated:%v", empty, okv), "a non-empty header can be encoded without ok("+shortFn(val)+"(h, "+tn.flag+"))")
-		}
-		r.floor("R13.2", np, 2, "success paths of "+shortFn(enc))
-	}
+	checkBucketEncoders(r, "R13.2")
 	c05Buckets(r, "R13.2")
 	iv := P.ivCheck()
 	for _, T := range P.structureTypes() {
@@ -521,23 +493,7 @@ func runC13(r *Report, tier string) {
 			}
 		}
 	}
-	ne := 0
-	for _, T := range P.structureTypes() {
-		enc := P.methodOf(T, "MarshalCBOR")
-		if enc == nil {
-			continue
-		}
-		for _, x := range P.factsOf(enc).exits {
-			if x.kind == exitFailure {
-				continue
-			}
-			ne++
-			fs := exitFacts(P, x)
-			ok := len(fs.matchAll([]factPat{fp(okp("call<" + shortFn(iv) + ">($0.Headers)"))}, nil)) > 0
-			r.ob("R13.2", shortFn(enc)+":iv:"+exitID(P, enc, x), enc, x.ret, "structure encoder carries ok(cross-bucket IV check) on its Headers").check(ok, "ok("+shortFn(iv)+"($0.Headers))", "an encoder success exit lacks ok("+shortFn(iv)+"(Headers))")
-		}
-	}
-	r.floor("R13.2", ne, 5, "structure encoder success exits")
+	checkStructureEncodersIV(r, "R13.2")
 	// the IV check itself: both directions
 	{
 		np := 0
@@ -638,6 +594,66 @@ func runC13(r *Report, tier string) {
 			checkModeOptions(r, "R13.3", mc, map[string]int64{"DupMapKey": P.cborConst("DupMapKeyEnforcedAPF"), "IntDec": P.cborConst("IntDecConvertSigned")}, nil)
 		}
 	}
+}
+
+// checkBucketEncoders: both bucket encoders validate (with the right flag)
+// every non-empty header they encode (R13.2 / R08.5 / R09.4).
+func checkBucketEncoders(r *Report, rule string) {
+	P := r.P
+	val := P.headerValidator()
+	for _, tn := range []struct {
+		name string
+		flag string
+	}{{"ProtectedHeader", "true"}, {"UnprotectedHeader", "false"}} {
+		enc := P.methodOf(P.mustNamed(tn.name), "MarshalCBOR")
+		if enc == nil {
+			undecidedf("anchor not found: %s.MarshalCBOR", tn.name)
+		}
+		np := 0
+		for _, p := range P.allPaths(enc) {
+			if !p.feasible() {
+				continue
+			}
+			fs := factSet{}
+			for _, c := range p.conds {
+				fs.add(c)
+			}
+			res := p.results()
+			if k, _ := P.classifyErr(res[1], fs); k == exitFailure {
+				continue
+			}
+			np++
+			o := r.ob(rule, shortFn(enc)+":path:"+pathID(p), enc, p.ret, "bucket encoder: empty header, or ok(validator(h, "+tn.flag+"))")
+			empty := len(fs.matchAll([]factPat{fp("binop<==>(0, len($0))")}, nil)) > 0
+			okv := len(fs.matchAll([]factPat{fp(okp("call<" + shortFn(val) + ">($0, " + tn.flag + ")"))}, nil)) > 0
+			o.check(empty || okv, fmt.Sprintf("empty:%v validated:%v", empty, okv), "a non-empty header can be encoded without ok("+shortFn(val)+"(h, "+tn.flag+"))")
+		}
+		r.floor(rule, np, 2, "success paths of "+shortFn(enc))
+	}
+}
+
+// checkStructureEncodersIV: every structure encoder carries ok(cross-bucket
+// IV check) on its own Headers (R13.2 / R08.5).
+func checkStructureEncodersIV(r *Report, rule string) {
+	P := r.P
+	iv := P.ivCheck()
+	ne := 0
+	for _, T := range P.structureTypes() {
+		enc := P.methodOf(T, "MarshalCBOR")
+		if enc == nil {
+			continue
+		}
+		for _, x := range P.factsOf(enc).exits {
+			if x.kind == exitFailure {
+				continue
+			}
+			ne++
+			fs := exitFacts(P, x)
+			ok := len(fs.matchAll([]factPat{fp(okp("call<" + shortFn(iv) + ">($0.Headers)"))}, nil)) > 0
+			r.ob(rule, shortFn(enc)+":iv:"+exitID(P, enc, x), enc, x.ret, "structure encoder carries ok(cross-bucket IV check) on its Headers").check(ok, "ok("+shortFn(iv)+"($0.Headers))", "an encoder success exit lacks ok("+shortFn(iv)+"(Headers))")
+		}
+	}
+	r.floor(rule, ne, 5, "structure encoder success exits")
 }
 
 func mutC13() []mutant {
